@@ -25,7 +25,8 @@ def checkBlock (l : Line) : Verdict := Id.run do
   let mut b := Bus.create .mbc1 4 32768 rom
   if at_ ≥ 0x8000 then
     for k in [0:n] do
-      match Bus.write b (at_ + k) code[k]! with | .ok b' => b := b' | .error _ => return .bad "setup"
+      -- code at an echo address is written through the work-RAM cell it mirrors (the harness does the same)
+      match Bus.write b (if at_ + k ≥ 0xe000 && at_ + k < 0xfe00 then at_ + k - 0x2000 else at_ + k) code[k]! with | .ok b' => b := b' | .error _ => return .bad "setup"
   let r : Interp.Regs := { af := 0x1200, bc := 0x3456, de := 0x789a, hl := 0xc800, sp := 0xdff0, ip := at_ }
   match Cpu.runCodeBlock r b 65536 with
   | .error _ => return .modelDiff "model panics"
